@@ -336,6 +336,9 @@ class F5B(PathAnalysis):
                 nm = n[1]
                 if nm in ROOT_CALLS:
                     user = self._root(n[5], "%s() writes to the file" % nm, "effect", user)
+                elif nm == "mcache_put" and len(n[3]) >= 3 and is_int(n[3][2]) and (int_val(n[3][2]) & 1):
+                    # a chunk handed back DIRTY is a promise to write it at eviction / close
+                    user = self._root(n[5], "mcache_put(.., MCACHE_DIRTY) queues a chunk for writing", "mark", user)
                 elif nm in ("fopen", "freopen") and len(n[3]) >= 2 and kind(strip(n[3][1])) == "str" and strip(n[3][1])[1] in WRITABLE_MODES:
                     user = self._root(n[5], "fopen(…, \"%s\") opens a file for writing" % strip(n[3][1])[1], "open", user)
                 elif nm in ("open", "creat") and func.name not in OPENERS:
